@@ -115,6 +115,20 @@ func c12Forms(sc *c07Schema) []c12Form {
 		{"builtin-first", "FIRST(" + r(items) + ")", "any"},
 		{"builtin-changetype", "CHANGETYPE(" + r(k) + ", 'string')", "str"},
 		{"builtin-hash", "HASH(" + r(s) + ", 'md5')", "str"},
+		{"builtin-lower", "TO_LOWER(" + r(s) + ")", "str"},
+		{"builtin-upper-null", "TO_UPPER(" + r("nokey") + ")", "any"},
+		{"builtin-lower-null", "TO_LOWER(NULL)", "any"},
+		{"builtin-encode", "DECODE(ENCODE(" + r(s) + ", 'base64'), 'base64')", "str"},
+		{"builtin-encode-null", "ENCODE(" + r("nokey") + ", 'hex')", "any"},
+		{"builtin-hash-null", "HASH(" + r("nokey") + ", 'sha1')", "any"},
+		{"builtin-first-null", "FIRST(" + r("nokey") + ")", "any"},
+		{"builtin-last", "LAST(" + r(items) + ")", "any"},
+		{"builtin-elementat", "ELEMENTAT(" + r(items) + ", 0)", "any"},
+		{"builtin-unwind", "UNWIND(ARRAY(" + r(items) + ", ARRAY(" + r(k) + ")))", "any"},
+		{"builtin-daterange", "DATERANGE('2020-01-01', '2020-01-03')", "any"},
+		{"builtin-changetype-null", "CHANGETYPE(" + r("nokey") + ", 'string')", "any"},
+		{"builtin-array-null", "ARRAY(NULL, " + r("nokey") + ", " + r(items) + ")", "any"},
+		{"builtin-if-null", "IF(" + r("nokey") + " IS NULL, NULL, 1)", "any"},
 		{"user-function", "vf_id(" + r(v) + ")", "num"},
 		{"nested-function", "vf_mul(vf_id(" + r(k) + "), 3)", "num"},
 		{"subquery", "(SELECT " + p + " FROM " + r(items) + ")", "any"},
